@@ -221,6 +221,9 @@ def gen_query(rng, rows):
     sel = rng.choice(SELECTS)
     count = rng.random() < 0.2
     groups = rng.sample(GROUPS, rng.choice([0, 0, 1, 1, 2, 3, 4]))
+    if 1 <= len(groups) <= 3 and rng.random() < 0.15:
+        # a dimension named twice is two header levels (the grammar allows it; one level per GROUP BY atom)
+        groups.insert(rng.randrange(len(groups) + 1), rng.choice(groups))
     orders = [rng.choice(ORDERS) for _ in range(rng.choice([0, 1, 1, 2, 3, 4]))] if rng.random() < 0.8 else None
     # incl. top-level alternatives that overlap (a note satisfying two of them is still ONE matching note)
     where = rng.choice(["o | x | ~ | < | > | -", "o | -", "- | x", "o", "(o | x | -) #work | +zorg | @home", "!'zzzz'", "P0-5 | -",
@@ -343,7 +346,7 @@ def classify(f: C.Failure, entry: dict) -> bool:
 
 
 RULE = (
-    "indexes built from generated directories; 30 queries per index over all select forms (+count), 0-4 grouping dimensions from 8, order lists "
+    "indexes built from generated directories; 30 queries per index over all select forms (+count), 0-4 grouping dimensions from 8 (15% with one dimension named twice), order lists "
     "of length 0-4 from 6; swog.execute text parsed back and checked against the statement (each note once, labels = keys, siblings sorted and "
     "distinct, spec order within groups with numeric line numbers, select/count equalities) and compared with the Lean model's rendering; "
     "non-trivial = (index, query) with more than one matching note"
